@@ -169,3 +169,17 @@ def magnitude_specs():
         out.append(spec('magnitude/' + tag, SP, x0, rx, P))
         out.append(spec('magnitude/%s-initial' % tag, SP, {'A': kon, 'B': 3.0, 'C': km}, rx[:2], P))
     return out
+
+
+def short_name_specs():
+    """one- and few-letter lower-case species names (some are fragments of the reserved words volume / t), non-zero start values"""
+    out = []
+    for names in (['g', 'm', 'p', 'e'], ['vol', 'u', 'me', 'o'], ['v', 'l', 'ume', 'tt']):
+        a, b, c_, d = names
+        x0 = {a: 1.0, b: 4.0, c_: 2.5, d: 3.0}
+        rx = [ma([a], [a, b], 'kf'), ma([b], [b, c_], 0.8), ma([b], [], 'KK'), ma([c_, d], [d], 0.05),
+              gen([c_], [], ('/', ('*', ID('kf'), ID(c_)), ('+', ID('KK'), ID(b))))]
+        out.append(spec('short-names/' + a, names, x0, rx, PARAMS))
+        out.append(spec('short-names-rules/' + a, names + ['X'], dict(x0, X=0.0), rx[:3], PARAMS,
+                        [dict(type='additive', target='X', sources=[b, d], freq='repeated')]))
+    return out
